@@ -1023,6 +1023,35 @@ func toolC18Race(args []string) int {
 	if n := c.VerifSeriesCount("hist"); n != len(idents) {
 		fail("%d histogram series for %d identities", n, len(idents))
 	}
+	// many series of one type in one collector (a monitor that tags by operation name can easily produce thousands): identity and
+	// event accounting must hold for the last series exactly as for the first
+	{
+		many := metrics.NewCollector()
+		const nSeries = 1500
+		bad := 0
+		for j := 0; j < nSeries && bad < 3; j++ {
+			tags := map[string]string{"operation": "op" + Itoa(j)}
+			c1 := many.Counter("events_total", tags)
+			c1.Inc()
+			c2 := many.Counter("events_total", map[string]string{"operation": "op" + Itoa(j)})
+			c2.Inc()
+			h1 := many.Histogram("latency", tags)
+			h1.Observe(1)
+			h2 := many.Histogram("latency", map[string]string{"operation": "op" + Itoa(j)})
+			h2.Observe(2)
+			if c1 != c2 || c2.Value() != 2 {
+				fail("series %d of %d counters: two lookups of one identity returned different counters / value %d after 2 increments", j, nSeries, c2.Value())
+				bad++
+			}
+			if h1 != h2 || h2.Count() != 2 || h2.Sum() != 3 {
+				fail("series %d of %d histograms: two lookups of one identity returned different histograms / count %d sum %v after 2 observations", j, nSeries, h2.Count(), h2.Sum())
+				bad++
+			}
+		}
+		if n := many.VerifSeriesCount("counter"); n != nSeries {
+			fail("%d counter series for %d identities (many-series collector)", n, nSeries)
+		}
+	}
 	// reuse the sequential totals predicate; collect its hits as failures
 	hm := &hitCollector{}
 	checkMonitorTotalsInto(pm.VerifCollector(), nSearch, nDb, hm)
